@@ -68,6 +68,7 @@ package revocation
 
 //@ func (*SignedAccumulator).UnmarshalVerify
 //@   property C10 C08 C11
+//@   premise signednu: err == nil && pk.N != nil ==> result0.Nu != nil && hasinv(val(result0.Nu), val(pk.N))
 //@   requires s != nil && pk != nil
 //@   ensures cached: old(s.Accumulator) != nil ==> err == nil && result0 == old(s.Accumulator)
 //@   ensures auth: old(s.Accumulator) == nil && err == nil ==> pk.Counter == s.PKCounter && signedok(ref(pk.ECDSA), bytes(s.Data)) && fresh(result0)
@@ -78,10 +79,12 @@ package revocation
 
 //@ func (*Update).Verify
 //@   property C10 C09
+//@   premise lastindex: err == nil && len(update.Events) > 0 ==> update.Events[len(update.Events)-1].Index == result0.Index
+//@   premise signednu: err == nil && pk.N != nil ==> result0.Nu != nil && hasinv(val(result0.Nu), val(pk.N))
 //@   requires update != nil && pk != nil && update.SignedAccumulator != nil && evnonnil(update.Events)
 //@   ensures chain: err == nil ==> result0 != nil && result0 == update.SignedAccumulator.Accumulator && chained(update.Events, result0)
 //@   ensures auth: err == nil && old(update.SignedAccumulator.Accumulator) == nil ==> pk.Counter == update.SignedAccumulator.PKCounter && signedok(ref(pk.ECDSA), bytes(update.SignedAccumulator.Data))
-//@   ensures cached: old(update.SignedAccumulator.Accumulator) != nil ==> result0 == old(update.SignedAccumulator.Accumulator)
+//@   ensures cached: old(update.SignedAccumulator.Accumulator) != nil ==> (err == nil ==> result0 == old(update.SignedAccumulator.Accumulator)) && update.SignedAccumulator.Accumulator == old(update.SignedAccumulator.Accumulator)
 //@   modifies update.SignedAccumulator.Accumulator
 //@   mustfail canary: err != nil
 
@@ -143,3 +146,34 @@ package revocation
 //@   modifies update.product, update.productFrom
 //@   loop 0 invariant 0 <= $i && update.product != nil && fresh(update.product) && val(update.product) == old(eprod(update.Events, from - update.Events[0].Index, from - update.Events[0].Index + $i))
 //@   mustfail canary: val(result) == 1
+
+//@ global Logger != nil
+//@ global ErrorRevoked != nil
+
+//@ func verify
+//@   property C09 C10 C11
+//@   requires u != nil && e != nil && acc != nil && acc.Nu != nil && grp != nil && grp.N != nil && val(grp.N) > 1 && val(e) >= 0
+//@   ensures rel: result <==> pow(val(u), val(e), val(grp.N)) == val(acc.Nu)
+//@   modifies nothing
+
+//@ func (*Witness).Verify
+//@   property C09 C10 C06
+//@   requires w != nil && pk != nil && pk.N != nil && val(pk.N) > 1 && w.SignedAccumulator != nil && w.U != nil && w.E != nil && val(w.E) >= 0
+//@   ensures ok: err == nil ==> w.SignedAccumulator.Accumulator != nil && w.SignedAccumulator.Accumulator.Nu != nil && pow(val(w.U), val(w.E), val(pk.N)) == val(w.SignedAccumulator.Accumulator.Nu)
+//@   ensures auth: err == nil && old(w.SignedAccumulator.Accumulator) == nil ==> pk.Counter == w.SignedAccumulator.PKCounter && signedok(ref(pk.ECDSA), bytes(w.SignedAccumulator.Data))
+//@   modifies w.SignedAccumulator.Accumulator
+//@   mustfail canary: err != nil
+
+//@ func (*Witness).Update
+//@   property C09 C10
+//@   requires w != nil && pk != nil && pk.N != nil && val(pk.N) > 1 && update != nil && update.SignedAccumulator != nil && evnonnil(update.Events) && prodinv(update)
+//@   requires w.SignedAccumulator != nil && w.SignedAccumulator.Accumulator != nil && w.U != nil && w.E != nil && val(w.E) > 0
+//@   assume invertible: hasinv(val(w.U), val(pk.N))
+//@   ensures atomic: err != nil ==> w.U == old(w.U) && w.E == old(w.E) && w.SignedAccumulator == old(w.SignedAccumulator) && w.SignedAccumulator.Accumulator == old(w.SignedAccumulator.Accumulator) && w.SignedAccumulator.PKCounter == old(w.SignedAccumulator.PKCounter) && w.SignedAccumulator.Data == old(w.SignedAccumulator.Data) && val(w.U) == old(val(w.U))
+//@   ensures forward: err == nil ==> w.SignedAccumulator.Accumulator != nil && w.SignedAccumulator.Accumulator.Index >= old(w.SignedAccumulator.Accumulator.Index)
+//@   ensures checked: err == nil && w.U != old(w.U) ==> w.SignedAccumulator.Accumulator.Nu != nil && pow(val(w.U), val(w.E), val(pk.N)) == val(w.SignedAccumulator.Accumulator.Nu)
+//@   ensures kept: w.E == old(w.E) && val(w.E) == old(val(w.E))
+//@   ensures verified: err == nil && (w.U != old(w.U) || w.SignedAccumulator != old(w.SignedAccumulator)) ==> update.SignedAccumulator.Accumulator != nil && chained(update.Events, update.SignedAccumulator.Accumulator)
+//@   ensures notrevoked: err == nil && w.U != old(w.U) && len(update.Events) > 0 ==> gcd(val(w.E), old(eprod(update.Events, w.SignedAccumulator.Accumulator.Index + 1 - update.Events[0].Index, len(update.Events)))) == 1
+//@   modifies w.U, w.SignedAccumulator, heap("Witness.Updated"), fields(w.SignedAccumulator), update.SignedAccumulator.Accumulator, update.product, update.productFrom
+//@   mustfail canary: err != nil
